@@ -19,8 +19,10 @@ tvars == <<l, dead, bad, nops, done>>
 
 \* the formula an observation contradicts ("" if none)
 Why(e) ==
-    IF e.text # Render(e.src) THEN "MACHINERY-Binding"              \* the text given to the real one is not the abstract source
+    IF e.text # Render(e.src) \/ { e.files[j] : j \in 1..Len(e.files) } # FilesOf(e.src) \/ ~FilesConsistent(e.src)
+    THEN "MACHINERY-Binding"                                        \* the text/files given to the real one are not the abstract source
     ELSE IF ~WellFormed(e.src) THEN "MACHINERY-NotSpecified"        \* the generator left the domain the reference speaks about
+    ELSE IF Run(e.src, {}).err THEN (IF e.ok THEN "ExpansionEqualsReference" ELSE "")   \* a genuine include cycle must be refused
     ELSE IF ~e.ok THEN "ExpansionEqualsReference"                   \* the real preprocessor refused a well-formed source
     ELSE IF ExpansionEqualsReference(e.src, e.lex)
     THEN (IF ~StringsInviolate(e.src, e.lex) THEN "StringsInviolate"
@@ -36,7 +38,8 @@ Why(e) ==
 
 Construct(e, w) ==
     IF w \in {"MACHINERY-Binding", "MACHINERY-NotSpecified"} THEN "-"
-    ELSE IF ~e.ok THEN "preprocess-failed"
+    ELSE IF Run(e.src, {}).err THEN "include-cycle-accepted"
+    ELSE IF ~e.ok THEN (IF HasInclude(e.src) THEN "include-refused" ELSE "preprocess-failed")
     ELSE IF w = "InactiveBranchSilent" /\ ExplainingDev(e.src, e.lex) # "" THEN ExplainingDev(e.src, e.lex)
     ELSE e.src[FirstDivergence(e.src, e.lex)].tag
 
